@@ -63,16 +63,10 @@ def check_lanczos(ctx, A, v, m, sig_extra=()):
     G = V[:, :kk].conj().T @ V[:, :kk]
     orth = np.abs(G - np.identity(kk)).max()
     proj = np.abs(V[:, :kk].conj().T @ A @ V[:, :kk] - T[:kk, :kk]).max() / nA
-    if ind >= COND:
-        ctx.close('lanczos.orthonormal[conditioned]', orth, 1e-8, 'V^H V != I although no Ritz pair has converged', detail)
-        ctx.close('lanczos.projection[conditioned]', proj, 1e-8, 'V^H A V != T although no Ritz pair has converged', detail)
-    else:
-        ctx.skip('lanczos.orthonormal[conditioned]')
-        ctx.event('lanczos_converged_class')
-        if orth > 1e-8 or proj > 1e-8:
-            ctx.known('C14/converged-ritz-orthogonality',
-                      'plain Lanczos (no re-orthogonalisation) loses global orthogonality once a Ritz pair has converged '
-                      '(conditioning indicator < 1e-5); recurrence, norms, local orthogonality still hold', detail)
+    # demanded in every class: the iteration re-orthogonalises (repository fix 3c1fa1a); the conditioning class is recorded as coverage
+    ctx.event('lanczos_converged_class' if ind < COND else 'lanczos_conditioned_class')
+    ctx.close('lanczos.orthonormal', orth, 1e-8, f'V^H V != I on the leading {kk} vectors (conditioning indicator {ind:.1e})', detail)
+    ctx.close('lanczos.projection', proj, 1e-8, f'V^H A V != T on the leading {kk} vectors (conditioning indicator {ind:.1e})', detail)
     return k, kd, ind
 
 
@@ -165,7 +159,7 @@ def large_case(ctx, idx, rng):
 
 
 def f6_case(ctx, idx, rng):
-    """Keeps the known finding visible: n = m in {32, 64} Gaussian Hermitian matrices."""
+    """Regression workload of the fixed orthogonality-loss defect: n = m in {32, 48, 64} Gaussian Hermitian matrices."""
     n = (32, 64, 48)[idx % 3]
     A = rng.normal(size=(n, n)) + 1j * rng.normal(size=(n, n))
     A = (A + A.conj().T) / np.sqrt(n)
@@ -182,11 +176,12 @@ SPEC = {
              'structural / rotated invariant subspace, eigenvector) x real/complex, Lanczos on the Hermitian matrix and Arnoldi on a general or '
              'the same matrix; large: n in {20,50,120,300}, m<=24; F6 cases n=m in {32,48,64}. The always-on relations (sizes, real alpha, '
              'beta>0, unit norms, three-term recurrence, local orthogonality, Afunc call count, justified early return, full length when '
-             'the independent re-orthogonalised Krylov dimension is >= m with margin) are demanded everywhere; global orthonormality and '
-             'V^H A V = T only where the conditioning indicator min beta_j|s_ji|/||T|| >= 1e-5 (no converged Ritz pair). distinct = '
+             'the independent re-orthogonalised Krylov dimension is >= m with margin) are demanded everywhere; and so are global '
+             'orthonormality and V^H A V = T on the leading min(k, Krylov dimension) vectors (the conditioning indicator min beta_j|s_ji|/||T|| '
+             'is recorded per case to show that converged-Ritz-pair cases are covered). distinct = '
              '(routine, size class, m vs n, spectrum, start, dtype).'),
-    'deciding': ['lanczos.three-term-recurrence', 'lanczos.sizes', 'lanczos.beta-positive', 'lanczos.alpha-real', 'lanczos.orthonormal[conditioned]',
-                 'lanczos.projection[conditioned]', 'lanczos.early-return-justified', 'arnoldi.recurrence', 'arnoldi.orthonormal', 'arnoldi.projection',
+    'deciding': ['lanczos.three-term-recurrence', 'lanczos.sizes', 'lanczos.beta-positive', 'lanczos.alpha-real', 'lanczos.orthonormal',
+                 'lanczos.projection', 'lanczos.early-return-justified', 'arnoldi.recurrence', 'arnoldi.orthonormal', 'arnoldi.projection',
                  'arnoldi.hessenberg'],
     'workloads': [
         Workload('grid', grid_case, quick=len(GRID) * 8, thorough=len(GRID) * 400,
